@@ -85,6 +85,9 @@ func fullDecls(S *Sorts, prelude string, ifaceFns map[string]types.Type) string 
 			fmt.Fprintf(&b, "(declare-fun sub<%s> ((Array %s Bool) (Array %s Bool)) Bool)\n(declare-fun subw<%s> ((Array %s Bool) (Array %s Bool)) %s)\n", kt, k, k, kt, k, k, k)
 			fmt.Fprintf(&b, "(assert (forall ((a (Array %s Bool)) (b (Array %s Bool)) (k %s)) (! (=> (and (sub<%s> a b) (select a k)) (select b k)) :pattern ((sub<%s> a b) (select a k)))))\n", k, k, k, kt, kt)
 			fmt.Fprintf(&b, "(assert (forall ((a (Array %s Bool)) (b (Array %s Bool))) (! (or (sub<%s> a b) (and (select a (subw<%s> a b)) (not (select b (subw<%s> a b))))) :pattern ((sub<%s> a b)))))\n", k, k, kt, kt, kt, kt)
+			fmt.Fprintf(&b, "(assert (forall ((a (Array %s Bool)) (b (Array %s Bool)) (k %s)) (! (= (sub<%s> (store a k true) b) (and (sub<%s> a b) (select b k))) :pattern ((sub<%s> (store a k true) b)))))\n", k, k, k, kt, kt, kt)
+			fmt.Fprintf(&b, "(assert (forall ((a (Array %s Bool))) (! (sub<%s> a a) :pattern ((sub<%s> a a)))))\n", k, kt, kt)
+			fmt.Fprintf(&b, "(assert (forall ((b (Array %s Bool))) (! (sub<%s> empty<%s> b) :pattern ((sub<%s> empty<%s> b)))))\n", k, kt, kt, kt, kt)
 			fmt.Fprintf(&b, "(assert (forall ((a (Array %s Bool)) (b (Array %s Bool))) (! (=> (and (fin<%s> a) (fin<%s> b) (sub<%s> a b) (= (setcard<%s> a) (setcard<%s> b))) (= a b)) :pattern ((sub<%s> a b)))))\n", k, k, kt, kt, kt, kt, kt, kt)
 		}
 		fmt.Fprintf(&b, "(define-fun %s.ok ((m %s)) Bool (and (fin<%s> (%s.dom m)) (= (%s.card m) (setcard<%s> (%s.dom m)))))\n", n, n, kt, n, n, kt, n)
@@ -125,11 +128,18 @@ type solverSpec struct {
 	args func(ms int) []string
 }
 
+// solverSeed comes from VERIF_SEED; it only perturbs the solvers' heuristics.
+var solverSeed = 0
+
 var solvers = []solverSpec{
-	{"z3-new", func(ms int) []string { return []string{"z3-new", fmt.Sprintf("-t:%d", ms)} }},
-	{"z3", func(ms int) []string { return []string{"z3", fmt.Sprintf("-t:%d", ms)} }},
+	{"z3-new", func(ms int) []string {
+		return []string{"z3-new", fmt.Sprintf("-t:%d", ms), fmt.Sprintf("smt.random_seed=%d", solverSeed), fmt.Sprintf("sat.random_seed=%d", solverSeed)}
+	}},
+	{"z3", func(ms int) []string {
+		return []string{"z3", fmt.Sprintf("-t:%d", ms), fmt.Sprintf("smt.random_seed=%d", solverSeed), fmt.Sprintf("sat.random_seed=%d", solverSeed)}
+	}},
 	{"cvc5", func(ms int) []string {
-		return []string{"cvc5", fmt.Sprintf("--tlimit-per=%d", ms), "--dt-nested-rec", "--strings-exp", "--incremental"}
+		return []string{"cvc5", fmt.Sprintf("--tlimit-per=%d", ms), "--dt-nested-rec", "--strings-exp", "--incremental", fmt.Sprintf("--seed=%d", solverSeed)}
 	}},
 }
 
@@ -265,7 +275,11 @@ func dischargeAll(dir string, decls func(vc *FuncVC) string, vcs []*FuncVC, filt
 					continue
 				}
 				q := buildQuery(decls(j.vc), j.vc, j.o, false)
-				j.o.Result = solveOne(dir, j.o.Name, q, timeoutMs, false)
+				to := timeoutMs
+				if j.o.Cover && to > 2500 {
+					to = 2500 // vacuity guards: a contradiction, if any, is found quickly
+				}
+				j.o.Result = solveOne(dir, j.o.Name, q, to, false)
 			}
 		}()
 	}
